@@ -68,7 +68,21 @@ func genC09Script(t *rapid.T, w cfggen.World, session uint32) c09Script {
 		sortStrings(names)
 		body := model.AcctRequest{Flags: rapid.SampledFrom([]byte{2, 4, 8}).Draw(t, "acct_flags"), Method: 6, Priv: 1, AType: 1, Service: 1,
 			User: model.B(rapid.SampledFrom(names).Draw(t, "acct_user")), Port: b("tty0"), RemAddr: b("r"), Args: []model.B{b("task_id=7")}}.Encode()
-		return c09Script{Kind: "acct", Type: 3, Session: session, Pkts: []c09Pkt{{Body: body}}}
+		sc := c09Script{Kind: "acct", Type: 3, Session: session, Pkts: []c09Pkt{{Body: body}}}
+		// a task may go on under the same session id: watchdog updates, then stop
+		more := rapid.IntRange(0, 2).Draw(t, "acct_more")
+		for k := 0; k < more; k++ {
+			fl := byte(0x0a)
+			if k == more-1 && rapid.Bool().Draw(t, "acct_stop") {
+				fl = 4
+			}
+			sc.Pkts = append(sc.Pkts, c09Pkt{Body: model.AcctRequest{Flags: fl, Method: 6, Priv: 1, AType: 1, Service: 1,
+				User: model.B(rapid.SampledFrom(names).Draw(t, "acct_user_more")), Port: b("tty0"), RemAddr: b("r"), Args: []model.B{b("task_id=7"), b("elapsed_time=3")}}.Encode()})
+		}
+		if more > 0 {
+			sc.Kind = "acct-multi"
+		}
+		return sc
 	}
 	as := genAuthScript(t, w, cfggen.ScopeA, session)
 	sc := c09Script{Kind: "authen:" + as.Flavour, Type: 1, Session: session}
